@@ -391,14 +391,28 @@ func (grid *RegularGrid) removeQuadFromCell(toRemove *Quad, x uint, y uint) {
 	}
 }
 
+// cellCoord returns the index of the cell a coordinate falls into along one
+// axis, clamped to the grid: a merged quad is a float32 blend of quads inside
+// the grid and can overshoot a bound by a rounding error.
+func (grid *RegularGrid) cellCoord(v float32, min float32, cells int) uint {
+	c := (int)(math.Floor((float64)(v-min) / (float64)(grid.Resolution)))
+	if c < 0 {
+		c = 0
+	}
+	if c > cells-1 {
+		c = cells - 1
+	}
+	return (uint)(c)
+}
+
 func (grid *RegularGrid) mergeQuads(existingQuad *Quad, newQuad *Quad) {
 
 	minPoint := Sub(existingQuad.Center, existingQuad.Extents)
 	maxPoint := Add(existingQuad.Center, existingQuad.Extents)
-	minXGridCoord0 := (uint)(math.Floor((float64)(minPoint.x-grid.Min.x) / (float64)(grid.Resolution)))
-	minYGridCoord0 := (uint)(math.Floor((float64)(minPoint.z-grid.Min.z) / (float64)(grid.Resolution)))
-	maxXGridCoord0 := (uint)(math.Floor((float64)(maxPoint.x-grid.Min.x) / (float64)(grid.Resolution)))
-	maxYGridCoord0 := (uint)(math.Floor((float64)(maxPoint.z-grid.Min.z) / (float64)(grid.Resolution)))
+	minXGridCoord0 := grid.cellCoord(minPoint.x, grid.Min.x, len(grid.Grid[0]))
+	minYGridCoord0 := grid.cellCoord(minPoint.z, grid.Min.z, len(grid.Grid))
+	maxXGridCoord0 := grid.cellCoord(maxPoint.x, grid.Min.x, len(grid.Grid[0]))
+	maxYGridCoord0 := grid.cellCoord(maxPoint.z, grid.Min.z, len(grid.Grid))
 
 	centerDiff := Sub(newQuad.Center, existingQuad.Center)
 	extentsDiff := Sub(newQuad.Extents, existingQuad.Extents)
@@ -408,10 +422,10 @@ func (grid *RegularGrid) mergeQuads(existingQuad *Quad, newQuad *Quad) {
 	// calculate the min cell and max cell again:
 	minPoint = Sub(existingQuad.Center, existingQuad.Extents)
 	maxPoint = Add(existingQuad.Center, existingQuad.Extents)
-	minXGridCoord1 := (uint)(math.Floor((float64)(minPoint.x-grid.Min.x) / (float64)(grid.Resolution)))
-	minYGridCoord1 := (uint)(math.Floor((float64)(minPoint.z-grid.Min.z) / (float64)(grid.Resolution)))
-	maxXGridCoord1 := (uint)(math.Floor((float64)(maxPoint.x-grid.Min.x) / (float64)(grid.Resolution)))
-	maxYGridCoord1 := (uint)(math.Floor((float64)(maxPoint.z-grid.Min.z) / (float64)(grid.Resolution)))
+	minXGridCoord1 := grid.cellCoord(minPoint.x, grid.Min.x, len(grid.Grid[0]))
+	minYGridCoord1 := grid.cellCoord(minPoint.z, grid.Min.z, len(grid.Grid))
+	maxXGridCoord1 := grid.cellCoord(maxPoint.x, grid.Min.x, len(grid.Grid[0]))
+	maxYGridCoord1 := grid.cellCoord(maxPoint.z, grid.Min.z, len(grid.Grid))
 
 	minMinX := minXGridCoord0
 	maxMinX := minXGridCoord1
@@ -489,6 +503,19 @@ func (grid *RegularGrid) mergeQuads(existingQuad *Quad, newQuad *Quad) {
 				grid.Grid[y][x] = append(grid.Grid[y][x], existingQuad)
 			} else {
 				grid.removeQuadFromCell(existingQuad, x, y)
+			}
+		}
+	}
+
+	// The cells the quad occupied before the merge are recomputed from its
+	// coordinates above. Once the grid origin has moved, float32 rounding can
+	// put the same edge into the neighbouring cell, and the edge updates then
+	// start from cells the quad was never registered in: make sure that every
+	// cell of the new footprint holds the quad.
+	for y := minYGridCoord1; y <= maxYGridCoord1 && y < (uint)(len(grid.Grid)); y++ {
+		for x := minXGridCoord1; x <= maxXGridCoord1 && x < (uint)(len(grid.Grid[y])); x++ {
+			if contains, _ := arrayContains(grid.Grid[y][x], existingQuad); !contains {
+				grid.Grid[y][x] = append(grid.Grid[y][x], existingQuad)
 			}
 		}
 	}
